@@ -135,6 +135,8 @@ def job_registration(ses, which):
                 n += 1
                 pv = s2.store[cell]
                 if prelude: pv = dict(zip(w.fields('PasetoParser'), pv[3]))['parser']
+                if isinstance(pv, tuple) and len(pv) > 1 and pv[1] == 'Havocked':
+                    ses.violation('%s: the body could not be encoded and was abstracted - what it registers is unknown' % tag, {}, {'kind': 'c16_registration', 'method': meth, 'prelude': prelude}); continue
                 g = dict(zip(w.fields('GenericParser'), pv[3])); cl = g['claims']; vm = g['claim_validators']
                 want = um.mk_obj(Store(K(S, False), k, True), Store(K(S, JV.Null), k, v))
                 post = And(Select(cl[1], k), Select(cl[2], k) == want, Implies(kq != k, And(Select(cl[1], kq) == Select(sp.P, kq), Select(cl[2], kq) == Select(sp.V, kq))),
